@@ -24,10 +24,13 @@ import (
 )
 
 type zzTapeEntry struct {
-	K string ` + "`json:\"k\"`" + `
-	W uint8  ` + "`json:\"w\"`" + `
-	V uint64 ` + "`json:\"v\"`" + `
+	K   string ` + "`json:\"k\"`" + `
+	W   uint8  ` + "`json:\"w\"`" + `
+	V   uint64 ` + "`json:\"v\"`" + `
+	Key []int  ` + "`json:\"key\"`" + `
 }
+
+var zzRankMap = map[string]uint64{}
 
 var zzTape []zzTapeEntry
 var zzTapePos int
@@ -48,8 +51,14 @@ func zzLoad() {
 	}
 	for _, e := range all {
 		switch e.K {
-		case "nondet", "choose", "rank", "rand", "time":
+		case "nondet", "choose", "rand", "time":
 			zzTape = append(zzTape, e)
+		case "rank":
+			kb := make([]byte, len(e.Key))
+			for i, c := range e.Key {
+				kb[i] = byte(c)
+			}
+			zzRankMap[string(kb)] = e.V
 		}
 	}
 }
@@ -126,7 +135,15 @@ func vpRank(b []byte) uint64 {
 	if len(b) == 0 {
 		return 0
 	}
-	return zzNext("rank")
+	zzLoad()
+	if r, ok := zzRankMap[string(b)]; ok {
+		return r
+	}
+	// a string the symbolic path never ranked (the native run diverged or the
+	// path ended earlier): any fresh rank keeps the order total
+	r := uint64(1<<62) + uint64(len(zzRankMap))
+	zzRankMap[string(b)] = r
+	return r
 }
 func vpJoin()  {}
 func vpYield() {}
